@@ -1,5 +1,5 @@
-(* Proofs for C40 (OpResult): refinement to std::optional, lifetime balance outside the finding's domain,
-   refutation inside it.  Statements are repeated in Props/Properties_C40.v. *)
+(* Proofs for C40 (OpResult, after the fix of the move constructor / move assignment): refinement to std::optional
+   and lifetime balance for all operation sequences; the former witnesses of the defect as regression facts.  Statements are repeated in Props/Properties_C40.v. *)
 From Coq Require Import ZArith List Bool Lia.
 From DV Require Import Base.Life Model.OpResultModel.
 Import ListNotations.
@@ -96,9 +96,11 @@ Proof.
   - (* OMove *)
     pose proof (vars_rel_vget _ _ i R) as Ri. pose proof (vars_rel_vget _ _ j R) as Rj.
     destruct (negb (i <? length vs)%nat); [discriminate|].
-    destruct (vget vs i) as [[a|]|], (vget sp i) as [[b|]|]; simpl in Ri; try discriminate;
-    destruct (vget vs j) as [[c|]|], (vget sp j) as [[d|]|]; simpl in Rj; try discriminate;
+    destruct (vget vs i) as [[a|]|] eqn:Evi, (vget sp i) as [[b|]|]; simpl in Ri; try discriminate.
+    assert (NE : i <> j) by (intros ->; rewrite Evi in H; destruct (vget vs j) as [[?|]|]; discriminate).
+    destruct (vget vs j) as [[c|]|] eqn:Evj, (vget sp j) as [[d|]|]; simpl in Rj; try discriminate;
     inversion H; subst; simpl; (eexists; split; [reflexivity|]); rel_close.
+    all: apply vars_rel_vset_r; [rel_close | rewrite vget_vset_other by exact NE; rewrite Evj; simpl; auto using Z.eqb_refl].
   - (* OCopyAssign *)
     pose proof (vars_rel_vget _ _ i R) as Ri. pose proof (vars_rel_vget _ _ j R) as Rj.
     destruct (vget vs i) as [vi|] eqn:Evi; [|discriminate].
@@ -162,7 +164,11 @@ Proof.
   - destruct (negb (in_range vs i)); [discriminate|].
     destruct (vget vs i); [discriminate|]. destruct (vget vs j) as [[c|]|]; inversion H; subst; reflexivity.
   - destruct (negb (in_range vs i)); [discriminate|].
-    destruct (vget vs i); [discriminate|]. destruct (vget vs j) as [[c|]|]; try discriminate; inversion H; subst; reflexivity.
+    destruct (vget vs i) eqn:Evi; [discriminate|]. destruct (vget vs j) as [[c|]|] eqn:Evj; try discriminate.
+    inversion H; subst; simpl.
+    assert (NE : i <> j) by (intros ->; congruence).
+    assert (X : vget (vset vs i (Some None)) j = Some None) by (rewrite vget_vset_other; auto).
+    rewrite <- X at 2. rewrite vset_id. reflexivity.
   - destruct (vget vs i) as [vi|] eqn:Evi; [|discriminate].
     destruct (vget vs j) as [vj|] eqn:Evj; [|discriminate].
     destruct (Nat.eqb i j) eqn:E.
@@ -264,11 +270,11 @@ Ltac slots_close S :=
   try match goal with E : (tmp_slot =? ?x) = true |- _ => rewrite (expected_tmp_eq _ x E) in * end;
   try (split; intros; auto; try discriminate; try congruence).
 
-(* Preservation for one step that does not move from an engaged OpResult *)
-Lemma step_inv s o s' : inv s -> moves_engaged (st_vars s) o = false -> step s o = Some s' -> inv s'.
+(* Preservation for one step *)
+Lemma step_inv s o s' : inv s -> step s o = Some s' -> inv s'.
 Proof.
-  destruct s as [vs g]. unfold inv. simpl. intros [LI [OK S]] D H. unfold ok in *.
-  destruct o as [i|i t|i t|i j|i j|i j|i j|i t|i t|i]; unfold step in H; simpl in H; simpl in D.
+  destruct s as [vs g]. unfold inv. simpl. intros [LI [OK S]] H. unfold ok in *.
+  destruct o as [i|i t|i t|i j|i j|i j|i j|i t|i t|i]; unfold step in H; simpl in H.
   - (* ODefault *)
     destruct (in_range vs i) eqn:IR; simpl in H; [|discriminate]. apply in_range_true in IR.
     destruct (vget vs i) eqn:Ev; [discriminate|]. inversion H; subst; simpl. split; [exact LI|]. split; [exact OK|].
@@ -318,18 +324,27 @@ Proof.
     + split; [exact LI|]. split; [exact OK|].
       intros id. rewrite expected_vset by exact IR. revert id. slots_close S.
       apply Z.eqb_eq in E. subst id. exact N0.
-  - (* OMove: only the disengaged case is in the domain *)
+  - (* OMove *)
     destruct (in_range vs i) eqn:IR; simpl in H; [|discriminate]. apply in_range_true in IR.
     destruct (vget vs i) eqn:Ev; [discriminate|].
     assert (N0 : is_live (lget g (slot i)) = false) by (apply (slots_not_engaged vs); [exact S | rewrite Ev; reflexivity]).
-    destruct (vget vs j) as [[c|]|] eqn:Evj; [discriminate| |discriminate]. inversion H; subst; simpl; clear H.
-    pose proof (vget_in_range _ _ _ Evj) as JR.
-    assert (Nj : is_live (lget g (slot j)) = false) by (apply (slots_not_engaged vs); [exact S | rewrite Evj; reflexivity]).
-    split; [exact LI|]. split; [exact OK|].
-    intros id. rewrite expected_vset by (rewrite vset_length; exact JR). rewrite expected_vset by exact IR.
-    revert id. slots_close S.
-    + apply Z.eqb_eq in E. subst id. exact Nj.
-    + apply Z.eqb_eq in E0. subst id. exact N0.
+    destruct (vget vs j) as [[c|]|] eqn:Evj; [| |discriminate]; inversion H; subst; simpl; clear H.
+    + (* engaged source: move-construct, then destroy the moved-from object *)
+      pose proof (vget_in_range _ _ _ Evj) as JR.
+      assert (NE : Nat.eqb i j = false) by (apply Nat.eqb_neq; intros ->; congruence).
+      assert (NE' : Nat.eqb j i = false) by (apply Nat.eqb_neq; apply Nat.eqb_neq in NE; auto).
+      pose proof (slots_engaged _ _ _ _ S Evj) as A.
+      destruct (move_from_fact (slot j) g OK) as [E1 G1]; [rewrite A; reflexivity|].
+      set (g1 := move_from (slot j) g) in *.
+      destruct (construct_fact KMove (slot i) g1 E1) as [E2 G2]; [rewrite G1, slot_inj, NE'; exact N0|].
+      set (g2 := construct KMove (slot i) g1) in *.
+      destruct (destroy_fact (slot j) g2 E2) as [E3 G3]; [rewrite G2, slot_inj, NE, G1, Z.eqb_refl; reflexivity|].
+      split; [apply destroy_linv, construct_linv, move_from_linv; exact LI|]. split; [exact E3|].
+      intros id. rewrite expected_vset by (rewrite vset_length; exact JR). rewrite expected_vset by exact IR.
+      rewrite G3, G2, G1. revert id. slots_close S.
+    + split; [exact LI|]. split; [exact OK|].
+      intros id. rewrite expected_vset by exact IR. revert id. slots_close S.
+      apply Z.eqb_eq in E. subst id. exact N0.
   - (* OCopyAssign *)
     destruct (vget vs i) as [vi|] eqn:Evi; [|discriminate].
     destruct (vget vs j) as [vj|] eqn:Evj; [|discriminate].
@@ -360,20 +375,43 @@ Proof.
       destruct (slot i =? id) eqn:E; simpl.
       * apply Z.eqb_eq in E. subst id. split; [discriminate | intros _; exact N1].
       * rewrite Same by exact E. exact S.
-  - (* OMoveAssign: i = j, or the source is disengaged *)
+  - (* OMoveAssign *)
     destruct (vget vs i) as [vi|] eqn:Evi; [|discriminate].
     destruct (vget vs j) as [vj|] eqn:Evj; [|discriminate].
-    pose proof (vget_in_range _ _ _ Evi) as IR.
-    destruct (Nat.eqb i j) eqn:Eij; [inversion H; subst; simpl; auto|]. simpl in D.
-    destruct vj as [c|]; [discriminate|].
-    destruct vi as [a|]; simpl in H; inversion H; subst; simpl; clear H.
-    + pose proof (slots_engaged _ _ _ _ S Evi) as A.
-      destruct (destroy_fact (slot i) g OK) as [E1 G1]; [rewrite A; reflexivity|].
-      split; [apply destroy_linv; exact LI|]. split; [exact E1|].
-      intros id. rewrite expected_vset by exact IR. rewrite G1. revert id. slots_close S.
-    + split; [exact LI|]. split; [exact OK|].
-      intros id. rewrite expected_vset by exact IR. revert id. slots_close S.
-      apply Z.eqb_eq in E. subst id. apply (slots_not_engaged vs); [exact S | rewrite Evi; reflexivity].
+    pose proof (vget_in_range _ _ _ Evi) as IR. pose proof (vget_in_range _ _ _ Evj) as JR.
+    destruct (Nat.eqb i j) eqn:Eij; [inversion H; subst; simpl; auto|].
+    assert (Eji : Nat.eqb j i = false) by (apply Nat.eqb_neq; apply Nat.eqb_neq in Eij; auto).
+    (* after `if (ptr_) ptr_->~T()`: slot i is not live, everything else unchanged *)
+    assert (P : exists g1, destroy_if_engaged i vi g = g1 /\ linv g1 /\ l_errs g1 = [] /\
+              is_live (lget g1 (slot i)) = false /\ forall id, slot i =? id = false -> lget g1 id = lget g id).
+    { destruct vi as [a|]; simpl.
+      - pose proof (slots_engaged _ _ _ _ S Evi) as A.
+        destruct (destroy_fact (slot i) g OK) as [E1 G1]; [rewrite A; reflexivity|].
+        eexists; split; [reflexivity|]. split; [apply destroy_linv; exact LI|]. split; [exact E1|].
+        split; [rewrite G1, Z.eqb_refl; reflexivity|]. intros id Hne. rewrite G1, Hne. reflexivity.
+      - eexists; split; [reflexivity|]. split; [exact LI|]. split; [exact OK|].
+        split; [apply (slots_not_engaged vs); [exact S | rewrite Evi; reflexivity] | reflexivity]. }
+    destruct P as [g1 [Eg1 [LI1 [OK1 [N1 Same]]]]]. rewrite Eg1 in H. clear Eg1.
+    destruct vj as [c|]; inversion H; subst; simpl; clear H.
+    + (* engaged source: move-construct, then destroy the moved-from object *)
+      pose proof (slots_engaged _ _ _ _ S Evj) as A.
+      assert (A1 : lget g1 (slot j) = Alive) by (rewrite Same; [exact A | rewrite slot_inj; exact Eij]).
+      destruct (move_from_fact (slot j) g1 OK1) as [E2 G2]; [rewrite A1; reflexivity|].
+      set (g2 := move_from (slot j) g1) in *.
+      destruct (construct_fact KMove (slot i) g2 E2) as [E3 G3]; [rewrite G2, slot_inj, Eji; exact N1|].
+      set (g3 := construct KMove (slot i) g2) in *.
+      destruct (destroy_fact (slot j) g3 E3) as [E4 G4]; [rewrite G3, slot_inj, Eij, G2, Z.eqb_refl; reflexivity|].
+      split; [apply destroy_linv, construct_linv, move_from_linv; exact LI1|]. split; [exact E4|].
+      intros id. rewrite expected_vset by (rewrite vset_length; exact JR). rewrite expected_vset by exact IR.
+      rewrite G4, G3, G2. specialize (S id).
+      destruct (slot j =? id) eqn:Ej; simpl; [split; [discriminate | reflexivity]|].
+      destruct (slot i =? id) eqn:Ei; simpl; [split; [reflexivity | discriminate]|].
+      rewrite Same by exact Ei. exact S.
+    + split; [exact LI1|]. split; [exact OK1|].
+      intros id. rewrite expected_vset by exact IR. specialize (S id).
+      destruct (slot i =? id) eqn:E; simpl.
+      * apply Z.eqb_eq in E. subst id. split; [discriminate | intros _; exact N1].
+      * rewrite Same by exact E. exact S.
   - (* OEmplace *)
     destruct (vget vs i) as [vi|] eqn:Evi; [|discriminate].
     pose proof (vget_in_range _ _ _ Evi) as IR.
@@ -422,13 +460,12 @@ Proof.
   destruct (id <? 0); split; intros; try discriminate; reflexivity.
 Qed.
 
-Lemma run_inv ops : forall s s', inv s -> has_engaged_move s ops = false -> run s ops = Some s' -> inv s'.
+Lemma run_inv ops : forall s s', inv s -> run s ops = Some s' -> inv s'.
 Proof.
-  induction ops as [|o r IH]; simpl; intros s s' I D H.
+  induction ops as [|o r IH]; simpl; intros s s' I H.
   - inversion H; subst. exact I.
-  - apply orb_false_iff in D. destruct D as [D1 D2].
-    destruct (step s o) as [s1|] eqn:E; [|discriminate].
-    eapply IH; [eapply step_inv; eauto | exact D2 | exact H].
+  - destruct (step s o) as [s1|] eqn:E; [|discriminate].
+    eapply IH; [eapply step_inv; eauto | exact H].
 Qed.
 
 Lemma all_gone_vget vs i : all_gone vs = true -> vget vs i = None.
@@ -459,52 +496,49 @@ Proof.
   split; [exact B|]. destruct I as [LI [OK _]]. apply (linv_ok_balanced _ LI OK). exact B.
 Qed.
 
-(* C40 outside the finding's domain *)
-Lemma holds_except_proof : forall nv ops s,
-  run (init nv) ops = Some s -> has_engaged_move (init nv) ops = false ->
-  spec_run (repeat None nv) ops = Some (st_vars s) /\
+(* balanced lifetimes, for ALL operation sequences *)
+Lemma opresult_balanced_proof : forall nv ops s, run (init nv) ops = Some s ->
   ok (st_led s) /\
   (forall i t, vget (st_vars s) i = Some (Some t) -> lget (st_led s) (slot i) = Alive) /\
   (forall id, is_live (lget (st_led s) id) = true -> exists i t, id = slot i /\ vget (st_vars s) i = Some (Some t)) /\
   (all_gone (st_vars s) = true -> balanced (st_led s) /\ n_ctor (st_led s) = n_dtor (st_led s)).
 Proof.
-  intros nv ops s H D.
-  pose proof (run_inv ops _ _ (inv_init nv) D H) as I.
-  split; [apply (run_exact ops (init nv) s D H)|].
+  intros nv ops s H.
+  pose proof (run_inv ops _ _ (inv_init nv) H) as I.
   split; [apply I|].
   split; [intros i t E; destruct I as [_ [_ S]]; eapply slots_engaged; eauto|].
   split; [apply inv_live_is_content; exact I | apply inv_balanced; exact I].
 Qed.
 
-(* the witness: make a engaged; move-construct b from a; destroy both *)
-Definition witness : list op := [ODefault 0; OEmplace 0 7; OMove 1 0; ODestroy 0; ODestroy 1].
+(* where no engaged value is moved, OpResult and std::optional agree exactly *)
+Lemma exact_proof : forall nv ops s, run (init nv) ops = Some s -> has_engaged_move (init nv) ops = false ->
+  spec_run (repeat None nv) ops = Some (st_vars s).
+Proof. intros nv ops s H D. apply (run_exact ops (init nv) s D H). Qed.
 
-Lemma refuted_proof : exists s,
-  run (init 2) witness = Some s /\ all_gone (st_vars s) = true /\ ok (st_led s) /\
-  n_ctor (st_led s) = 2 /\ n_dtor (st_led s) = 1 /\ lget (st_led s) (slot 0) = MovedFrom /\ ~ balanced (st_led s).
-Proof.
-  eexists. split; [vm_compute; reflexivity|].
-  repeat split; try (vm_compute; reflexivity).
-  intros B. specialize (B 0). vm_compute in B. discriminate.
-Qed.
-
-(* a later emplace into the moved-from OpResult constructs over the object that was never destroyed *)
-Definition witness_overwrite : list op := [ODefault 0; OEmplace 0 7; OMove 1 0; OEmplace 0 8; ODestroy 0; ODestroy 1].
-
-Lemma refuted_overwrite_proof : exists s,
-  run (init 2) witness_overwrite = Some s /\ all_gone (st_vars s) = true /\
-  status (st_led s) = LErr ConstructOverLive (slot 0) /\ n_ctor (st_led s) = 3 /\ n_dtor (st_led s) = 2.
-Proof. eexists. split; [vm_compute; reflexivity|]. repeat split; vm_compute; reflexivity. Qed.
-
-(* the property at full strength is false *)
+(* the property at full strength *)
 Definition full_statement : Prop :=
   forall nv ops s, run (init nv) ops = Some s ->
     (exists sp, spec_run (repeat None nv) ops = Some sp /\ vars_rel (st_vars s) sp = true) /\
     ok (st_led s) /\
     (all_gone (st_vars s) = true -> balanced (st_led s) /\ n_ctor (st_led s) = n_dtor (st_led s)).
 
-Lemma full_statement_false_proof : ~ full_statement.
+Lemma holds_proof : full_statement.
 Proof.
-  intros F. destruct refuted_proof as [s [R [G [_ [_ [_ [_ NB]]]]]]].
-  destruct (F _ _ _ R) as [_ [_ B]]. apply NB. apply B. exact G.
+  intros nv ops s H. split; [apply refines_optional_proof; exact H|].
+  destruct (opresult_balanced_proof nv ops s H) as [O [_ [_ B]]]. split; assumption.
 Qed.
+
+(* regression: the former witnesses of the defect (moved-from object never destroyed) are balanced now *)
+Definition witness : list op := [ODefault 0; OEmplace 0 7; OMove 1 0; ODestroy 0; ODestroy 1].
+Definition witness_assign : list op := [OValueMove 0 5; ODefault 1; OMoveAssign 1 0; ODestroy 0; ODestroy 1].
+Definition witness_overwrite : list op := [ODefault 0; OEmplace 0 7; OMove 1 0; OEmplace 0 8; ODestroy 0; ODestroy 1].
+
+Definition summary (ops : list op) :=
+  option_map (fun s => (all_gone (st_vars s), n_ctor (st_led s), n_dtor (st_led s), live_count (st_led s), okb (st_led s)))
+             (run (init 2) ops).
+
+Lemma regression_proof :
+  summary witness = Some (true, 2, 2, 0, true) /\
+  summary witness_assign = Some (true, 3, 3, 0, true) /\
+  summary witness_overwrite = Some (true, 3, 3, 0, true).
+Proof. repeat split; vm_compute; reflexivity. Qed.
